@@ -106,6 +106,10 @@ def run(ctx: Ctx) -> Result:
         ('push ~ { true false }', g.push_enc(bytes([C['TRUE'], C['FALSE']]))),
         ('push ~! { push d5 push d6 add d2 }', g.push_enc(b'\x0b')),
         ('!= m [ ] { true } push ~ { !m [ ] !m [ ] }', g.push_enc(bytes([C['TRUE']]) * 2)),
+        ('push ~! { push d1 push d2 }', g.push_enc(b'\x02')),                      # ~! substitutes the TOP item of what the block leaves
+        ('push ~! { push x0a push x0b push x0c } true', g.push_enc(b'\x0c') + bytes([C['TRUE']])),
+        ('push ~! { true false }', g.push_enc(b'\x00')),
+        ('push ~! { push x0102 dup size }', g.push_enc(b'\x02')),
         ('true if true end_if false', bytes([C['TRUE'], C['IF'], 0, 1, C['TRUE'], C['FALSE']])),
         ('if ( true ) { false } else { true } dup', bytes([C['TRUE'], C['IF_ELSE'], 0, 1, C['FALSE'], 0, 1, C['TRUE'], C['DUP']])),
         ('try { true } except { false } dup', bytes([C['TRY_EXCEPT'], 0, 1, C['TRUE'], 0, 1, C['FALSE'], C['DUP']])),
